@@ -22,6 +22,7 @@ ids are `<type>/<namespace rank>/<value>`.
   `find id` `has id` `loc id` `prefs id` `pts id` `each` `search q`   => `merged ## union`
   `hasid id`                   => `true|false`     FeaturesByID.HasFeatureWithID
   `reset`
+  `build`                      => `builder-crash`  the child died inside the builder (accepted); `crash` / `hang` (rejected)
 -/
 open B6.Driver B6.Model.Merged
 namespace B6.Driver.C17
@@ -143,6 +144,10 @@ def toFile (f : FileSt) : Fl :=
 def step (s : St) (op impl : String) : St × Verdict :=
   match words op with
   | ["reset"] => ({}, .ok)
+  | ["build"] =>
+    -- the child died inside compact.Build*: no files, nothing to merge — the case is outside the property's
+    -- domain (counted in the histogram as child:builder-crash); any other death (`crash`, `hang`) is rejected
+    if impl == "builder-crash" then (s, .ok) else (s, .bad)
   | "nss" :: _ =>
     match parseBracket (sdrop op 4) with
     | some (w :: ws) => if w == "~" && strictlyAscending ws && !ws.contains "~" then ({ s with nss := ws.length + 1 }, .ok) else (s, .bad)
